@@ -21,6 +21,7 @@ import (
 	"go/parser"
 	"go/token"
 	"os"
+	"os/exec"
 	"path/filepath"
 	"sort"
 	"strconv"
@@ -91,6 +92,9 @@ type caseIn struct {
 	Name    string   `json:"name"`    // iso: scenario name (part of the failure key)
 	MutIn   bool     `json:"mutin"`   // iso: overwrite every []any handed in, after the call returned
 	MutRet  bool     `json:"mutret"`  // iso: overwrite every composite value returned
+	Kind    string   `json:"kind"`    // torn: "hash" | "list"
+	Reader  string   `json:"reader"`  // torn: "get" | "getallhash" | "getlist"
+	Reads   int      `json:"reads"`   // torn: number of snapshots taken
 }
 
 type obs []interface{}
@@ -737,8 +741,11 @@ func str(x interface{}) interface{} {
 }
 
 // the projection under which the two backends are compared: values in their Redis string form,
-// list / hash "not found" = empty, SetExpiration on a missing key not distinguished, durations only
-// as "has an answer", every error alike
+// list / hash "not found" = empty, SetExpiration on a missing key not distinguished, every error alike.
+// GetExpiration on Redis has whole-second precision; at the harness' Redis scale (1 model ms = 100 real ms) one second is
+// 10 model ms.  The lifetime an operation leaves on a key is compared numerically within this tolerance.
+const redisTol = 30
+
 func projRedis(op string, o obs) obs {
 	switch o[0] {
 	case "v":
@@ -752,8 +759,8 @@ func projRedis(op string, o obs) obs {
 		case "setexp":
 			return obs{"ok"}
 		}
-	case "d", "dneg":
-		return obs{"d"}
+	case "dneg":
+		return obs{"dneg"}
 	case "it", "err":
 		return obs{"err"}
 	}
@@ -792,7 +799,7 @@ func redisAttribution(c caseIn, scale int64, robs []obs) string {
 		ok := true
 		for i, o := range c.Ops {
 			want := q.step(o)
-			if o.Op != "tick" && canon(projRedis(o.Op, want)) != canon(robs[i]) {
+			if o.Op != "tick" && !sameObs(projRedis(o.Op, want), robs[i], redisTol) {
 				ok = false
 				break
 			}
@@ -861,7 +868,7 @@ func runRedis(c caseIn) *caseOut {
 		if out.ShapeEnd < 0 && emptyCollection(r.m[o.K]) {
 			out.ShapeEnd = i // from here on the plain and the Redis-flavoured reference may differ
 		}
-		if !tainted && canon(got) != canon(want) {
+		if !tainted && !sameObs(got, want, redisTol) {
 			tainted = true
 			out.PropOK = false
 			out.FailAt = i
@@ -936,14 +943,14 @@ func runBoth(c caseIn) *caseOut {
 			memTainted = true
 			fail(i, classify("mem", o, before), fmt.Sprintf("memory.Storage op #%d %s(%s) answered %s, a sequential TTL map answers %s", i, o.Op, o.K, canon(got), canon(want)))
 		}
-		if !redisTainted && canon(rgot) != canon(rwant) {
+		if !redisTainted && !sameObs(rgot, rwant, redisTol) {
 			redisTainted = true
 			fail(i, classify("redis", o, rbefore), fmt.Sprintf("redis.Storage op #%d %s(%s) answered %s, a sequential TTL map (empty list/hash = absent) answers %s", i, o.Op, o.K, canon(rgot), canon(rwant)))
 		}
 		// cross-backend: only where the two references agree under the projection
-		if !memTainted && !redisTainted && canon(projRedis(o.Op, want)) == canon(rwant) {
+		if !memTainted && !redisTainted && sameObs(projRedis(o.Op, want), rwant, 0) {
 			out.Cross++
-			if canon(projRedis(o.Op, got)) != canon(rgot) {
+			if !sameObs(projRedis(o.Op, got), rgot, c.Tol+redisTol) {
 				fail(i, classify("cross", o, before), fmt.Sprintf("backends disagree at op #%d %s(%s): memory %s, redis %s", i, o.Op, o.K, canon(projRedis(o.Op, got)), canon(rgot)))
 			}
 		}
@@ -1552,6 +1559,200 @@ func runIso(c caseIn) *caseOut {
 	return out
 }
 
+// ---------------------------------------------------------------------------------------------
+// torn: a reader of a LARGE composite value racing writers that mutate it in place.  memory.Storage keeps one
+// map[string]any per hash and SetHash / DeleteHash write into it; AppendToList writes into the stored slice's spare capacity.
+// Every read (Get, GetAllHash, GetList) must therefore take its copy inside its critical section: a snapshot is the value
+// the key had at ONE instant between call and return (C13_snapshot_is_store_value, C13_linearizable_all_schedules).
+// The writer maintains an invariant over the value (hash: a == b or a == b+1, and the field count; list: base members, at
+// most one trailing "z") that every snapshot must satisfy.  A copy taken outside the lock either breaks it or dies with
+// the runtime's unrecoverable "fatal error: concurrent map iteration and map write" — so the scenario runs in a CHILD
+// process of the harness and a crashed child is a predicate failure.
+// ---------------------------------------------------------------------------------------------
+
+type tornResult struct {
+	OK     bool   `json:"ok"`
+	Msg    string `json:"msg"`
+	Reads  int    `json:"reads"`
+	Writes int64  `json:"writes"`
+	Free   int    `json:"free"` // times the mutex was free (TryLock succeeded) while the reader was inside a call
+}
+
+func tornChild(c caseIn) tornResult {
+	st := memory.New(context.Background())
+	k := "big"
+	n := c.Fill
+	if n <= 0 {
+		n = 20000
+	}
+	reads := c.Reads
+	if reads <= 0 {
+		reads = 300
+	}
+	if c.Kind == "hash" {
+		for i := 0; i < n; i++ {
+			must(st.SetHash(k, "f"+strconv.Itoa(i), "x"))
+		}
+		must(st.SetHash(k, "a", int64(0)))
+		must(st.SetHash(k, "b", int64(0)))
+	} else {
+		l := make([]any, n)
+		for i := range l {
+			l[i] = "x"
+		}
+		must(st.SetList(k, l, 0))
+		must(st.AppendToList(k, "z")) // grows the backing array: later appends are in place
+		must(st.RemoveFromList(k, "z"))
+	}
+	var stop, inCall int32
+	var writes int64
+	var wg sync.WaitGroup
+	wg.Add(2)
+	go func() { // the in-place writer
+		defer wg.Done()
+		for i := int64(1); atomic.LoadInt32(&stop) == 0; i++ {
+			if c.Kind == "hash" {
+				_ = st.SetHash(k, "a", i)
+				_ = st.SetHash(k, "b", i)
+				switch i % 4 {
+				case 0:
+					_ = st.SetHash(k, "t", "y")
+				case 2:
+					_ = st.DeleteHash(k, "t")
+				}
+			} else {
+				_ = st.AppendToList(k, "z")
+				_ = st.RemoveFromList(k, "z")
+			}
+			atomic.AddInt64(&writes, 1)
+		}
+	}()
+	free := 0
+	go func() { // observes whether the mutex is ever free while the reader is inside a call
+		defer wg.Done()
+		for atomic.LoadInt32(&stop) == 0 {
+			if atomic.LoadInt32(&inCall) == 1 && st.VerifMuTryLock() {
+				if atomic.LoadInt32(&inCall) == 1 {
+					free++
+				}
+				st.VerifMuUnlock()
+			}
+			time.Sleep(50 * time.Microsecond)
+		}
+	}()
+	res := tornResult{OK: true}
+	checkHash := func(h map[string]any) string {
+		a, ok1 := h["a"].(int64)
+		b, ok2 := h["b"].(int64)
+		_, hasT := h["t"]
+		want := n + 2
+		if hasT {
+			want++
+		}
+		switch {
+		case !ok1 || !ok2:
+			return "fields a / b missing from the snapshot"
+		case !(a == b || a == b+1):
+			return fmt.Sprintf("snapshot has a=%d b=%d: the writer only ever leaves a==b or a==b+1", a, b)
+		case len(h) != want:
+			return fmt.Sprintf("snapshot has %d fields, the hash had %d at every instant", len(h), want)
+		}
+		return ""
+	}
+	checkList := func(l []any) string {
+		if len(l) != n && len(l) != n+1 {
+			return fmt.Sprintf("snapshot has %d members, the list had %d or %d at every instant", len(l), n, n+1)
+		}
+		for i, x := range l {
+			if i < n && x != "x" || i == n && x != "z" {
+				return fmt.Sprintf("snapshot member #%d is %v", i, x)
+			}
+		}
+		return ""
+	}
+	for i := 0; i < reads && res.OK; i++ {
+		atomic.StoreInt32(&inCall, 1)
+		var v any
+		var err error
+		switch c.Reader {
+		case "get":
+			v, err = st.Get(k)
+		case "getallhash":
+			v, err = st.GetAllHash(k)
+		case "getlist":
+			v, err = st.GetList(k)
+		}
+		atomic.StoreInt32(&inCall, 0)
+		res.Reads++
+		bad := ""
+		switch x := v.(type) {
+		case map[string]any:
+			bad = checkHash(x)
+		case []any:
+			bad = checkList(x)
+		default:
+			if !(c.Kind == "hash" && c.Reader == "getlist" && errors.Is(err, types.ErrInvalidType)) {
+				bad = fmt.Sprintf("answered (%T, %v)", v, err)
+			}
+		}
+		if bad != "" {
+			res.OK = false
+			res.Msg = fmt.Sprintf("%s #%d of a %d-member %s while the writer runs: %s", c.Reader, i, n, c.Kind, bad)
+		}
+	}
+	atomic.StoreInt32(&stop, 1)
+	wg.Wait()
+	res.Writes = atomic.LoadInt64(&writes)
+	res.Free = free
+	return res
+}
+
+func runTorn(raw []byte, c caseIn) *caseOut {
+	out := &caseOut{PropOK: true, FailAt: -1, ShapeEnd: -1}
+	exe, err := os.Executable()
+	must(err)
+	ctx, cancel := context.WithTimeout(context.Background(), 60*time.Second)
+	defer cancel()
+	cmd := exec.CommandContext(ctx, exe, "tornchild")
+	cmd.Stdin = bytes.NewReader(raw)
+	var so, se bytes.Buffer
+	cmd.Stdout, cmd.Stderr = &so, &se
+	runErr := cmd.Run()
+	name := c.Reader + "-of-" + c.Kind
+	if runErr != nil {
+		head := ""
+		for _, l := range bytes.Split(se.Bytes(), []byte("\n")) {
+			t := string(bytes.TrimSpace(l))
+			if len(t) > 6 && (t[:5] == "fatal" || t[:5] == "panic") {
+				head = t
+				break
+			}
+		}
+		frames := ""
+		for _, l := range bytes.Split(se.Bytes(), []byte("\n")) {
+			if bytes.Contains(l, []byte("storage/memory.")) && len(frames) < 300 {
+				frames += " <- " + string(bytes.TrimSpace(l))
+			}
+		}
+		out.PropOK = false
+		out.PropKey = "mem:reader-vs-in-place-writer:" + name + ":crash"
+		out.PropMsg = fmt.Sprintf("%s on a large %s racing in-place writers killed the process (%v): %s%s", c.Reader, c.Kind, runErr, head, frames)
+		return out
+	}
+	var res tornResult
+	must(json.Unmarshal(so.Bytes(), &res))
+	out.Obs = []obs{{"torn", res.Reads, res.Writes, res.Free}}
+	if res.Reads > 0 && res.Writes > 0 {
+		out.Overlap = 1
+	}
+	if !res.OK {
+		out.PropOK = false
+		out.PropKey = "mem:reader-vs-in-place-writer:" + name + ":torn-snapshot"
+		out.PropMsg = res.Msg + " — not the value of the key at any instant"
+	}
+	return out
+}
+
 func runCase(raw []byte) *caseOut {
 	var c caseIn
 	dec := json.NewDecoder(bytes.NewReader(raw))
@@ -1572,6 +1773,8 @@ func runCase(raw []byte) *caseOut {
 		return runUpgrade(c)
 	case "iso":
 		return runIso(c)
+	case "torn":
+		return runTorn(raw, c)
 	}
 	panic("unknown mode " + c.Mode)
 }
@@ -1579,6 +1782,12 @@ func runCase(raw []byte) *caseOut {
 func main() {
 	if len(os.Args) > 1 && os.Args[1] == "gen" {
 		gen()
+		return
+	}
+	if len(os.Args) > 1 && os.Args[1] == "tornchild" {
+		var c caseIn
+		must(json.NewDecoder(os.Stdin).Decode(&c))
+		must(json.NewEncoder(os.Stdout).Encode(tornChild(c)))
 		return
 	}
 	if len(os.Args) > 1 && os.Args[1] == "race" {
@@ -1615,7 +1824,7 @@ func main() {
 				Mode string `json:"mode"`
 			}
 			_ = json.Unmarshal(lines[i], &probe)
-			if probe.Mode == "conc" || probe.Mode == "sweep" {
+			if probe.Mode == "conc" || probe.Mode == "sweep" || probe.Mode == "torn" {
 				concMu.Lock()
 				defer concMu.Unlock()
 			}
